@@ -308,6 +308,7 @@ class AlgTheory(Theory):
         self.symobj_sorts = {'Op', 'Rule'}
         self.sort_attr['Op'] = self.op_getattr
         self.sort_attr['Rule'] = self.rule_getattr
+        self.sort_attr['Leaf'] = leaf_getattr
         self.isinstance_handlers.append(self.op_isinstance)
         self.cls_id = program.cls('IdentityOperator')
         self.cls_hom = program.cls('HomothetyOperator')
@@ -346,6 +347,8 @@ class AlgTheory(Theory):
             return B.PyList(None, seq=tree.as_seq()) if tree.seq is not None else B.PyList(list(tree.items))
         if is_z3(tree) and tree.sort() == Op:
             return B.PyList([tree])
+        if is_z3(tree) and tree.sort() == Struct:
+            return struct_leaves(interp, tree)
         raise Unsupported(f'tree.leaves of {tree!r} in the alg facet')
 
     def tree_map(self, interp, f, tree, *rest, is_leaf=None):
@@ -802,6 +805,46 @@ def same_map(interp, a, b):
     ca, wa, ia, oa = den_of(interp, a)
     cb, wb, ib, ob = den_of(interp, b)
     return z3.And(ca == cb, wa == wb), z3.And(ia == ib, oa == ob)
+
+
+# ------------------------------------------------------------------------------- leaves of a structure
+Leaf = z3.DeclareSort('Leaf')                                      # a jax.ShapeDtypeStruct leaf of a structure
+ShapeTok = z3.DeclareSort('ShapeTok')
+n_leaves = z3.Function('n_leaves', Struct, z3.IntSort())
+leaf_at = z3.Function('leaf_at', Struct, z3.IntSort(), Leaf)
+leaf_shape = z3.Function('leaf_shape', Leaf, ShapeTok)
+leaf_dtype = z3.Function('leaf_dtype', Leaf, DTypeTok)
+leaf_size = z3.Function('leaf_size', Leaf, z3.IntSort())
+leaf_ndim = z3.Function('leaf_ndim', Leaf, z3.IntSort())
+
+
+def struct_leaves(interp, struct):
+    """jax.tree.leaves(structure) of an abstract structure: the ghost sequence leaf_at(structure, 0..n_leaves).  Nothing
+    says that two structures with the same leaves are equal (the container — the treedef — is part of a structure), so
+    code that compares structures through their leaves alone is NOT provably comparing the structures."""
+    interp.run.assume(n_leaves(struct) >= 0)
+    from pyvc.values import SSeq as _SSeq
+    return B.PyList(None, seq=_SSeq(n_leaves(struct), lambda k: leaf_at(struct, to_z3(k)), 'list'))
+
+
+def leaf_getattr(interp, v, name):
+    f = {'shape': leaf_shape, 'dtype': leaf_dtype, 'size': leaf_size, 'ndim': leaf_ndim}.get(name)
+    return f(v) if f is not None else None
+
+
+# ------------------------------------------------------------------------------- sizes
+n_elements = z3.Function('n_elements', Struct, z3.IntSort())      # ghost: number of elements of a structure
+
+
+def size_contracts(core='furax._base.core'):
+    """callee contracts of AbstractLinearOperator.in_size / out_size in the alg facet: a function of the operator's
+    input / output structure alone (their bodies are verified against sum-of-the-leaf-sizes in C04 and C05)"""
+    def mk(which):
+        def f(interp, fi, args, kwargs):
+            _, _, i_, o_ = den_of(interp, args[0])
+            return n_elements(i_ if which == 'in' else o_)
+        return f
+    return {f'{core}.AbstractLinearOperator.in_size': mk('in'), f'{core}.AbstractLinearOperator.out_size': mk('out')}
 
 
 # ------------------------------------------------------------------------------- block containers' structures
